@@ -408,7 +408,7 @@ def effective(defaults, mat, handler, flag, depth=0):
 
 
 def r8(ctx, rep):
-    rep.rule("C07.R8", "dialect capability flags do not claim a feature the engine lacks", floor=31)
+    rep.rule("C07.R8", "dialect capability flags do not claim a feature the engine lacks", floor=35)
     syn = ctx.syn
     defaults, mat = dialect_matrix(syn)
     with open(os.path.join(os.path.dirname(os.path.dirname(os.path.dirname(os.path.abspath(__file__)))), "oracles", "dialect_caps.json")) as fh:
@@ -430,17 +430,36 @@ def r8(ctx, rep):
 
 
 def r9(ctx, rep):
-    rep.rule("C07.R9", "WITH RECURSIVE is decided by ANY recursive CTE (monotone accumulation)", floor=1)
+    rep.rule("C07.R9", "WITH RECURSIVE is decided by ANY recursive CTE (monotone accumulation), and only for dialects that have the keyword", floor=2)
     syn = ctx.syn
     f = syn.fn("gen_query::translate_query", crate="prqlc", file_suffix="sql/gen_query.rs")
-    var = None
+    val = None
     for n in walk(f["body"]):
         if n.get("k") == "struct" and last_seg(n["p"]) == "With":
             for fname, fv in n["f"]:
                 if fname == "recursive":
-                    var = show(fv)
-    if var is None:
+                    val = fv
+    if val is None:
         raise AnchorMissing("translate_query: no `With { recursive, .. }` literal")
+    # the field is the accumulator, possibly AND-ed with capability tests of the dialect
+    conj = []
+
+    def flat(x):
+        if x.get("k") == "paren":
+            flat(x["e"])
+        elif x.get("k") == "bin" and x["op"] == "&&":
+            flat(x["lhs"])
+            flat(x["rhs"])
+        else:
+            conj.append(x)
+    flat(val)
+    accs = [c for c in conj if c.get("k") == "path" and "::" not in c["p"]]
+    caps = [c for c in conj if c.get("k") == "mcall" and show(c["r"]).endswith("dialect") and not c["a"]]
+    rest = [c for c in conj if not any(c is x for x in accs + caps)]
+    if len(accs) != 1 or rest:
+        rep.bad("recursive-field", f"`With.recursive` is `{show(val)}`: expected the accumulated flag of the CTE loop, optionally AND-ed with dialect capability tests", file=f["file"], line=val.get("l"), fn=f["path"])
+        return
+    var = accs[0]["p"]
     n_assign = 0
     for loop in [n for n in walk(f["body"]) if n.get("k") in ("for", "while", "loop")]:
         for a in walk(loop["body"]):
@@ -456,6 +475,14 @@ def r9(ctx, rep):
                 rep.ok(f"accumulate:{var}")
     if n_assign == 0:
         rep.bad(f"accumulate:{var}", f"`{var}` is never updated from the translated CTEs", file=f["file"], line=f["l"], fn=f["path"])
+    # the keyword is withheld from the dialects that lack it: some conjunct is a capability whose value is false for them (the values themselves are C07.R8 rows)
+    defaults, mat = dialect_matrix(syn)
+    lacking = ["MsSqlDialect"]
+    for h in lacking:
+        vals = {c["m"]: effective(defaults, mat, h, c["m"])[0] for c in caps if c["m"] in defaults}
+        rep.check(any(v == "false" for v in vals.values()), f"keyword-withheld:{h}",
+                  f"`With.recursive` is `{show(val)}`; for {h} no conjunct is false ({vals}): `loop` compiles to `WITH RECURSIVE ..`, which T-SQL does not parse "
+                  "(a T-SQL CTE that refers to itself is recursive without a keyword)", file=f["file"], line=val.get("l"), fn=f["path"])
 
 
 def r10(ctx, rep):
@@ -722,6 +749,102 @@ def r19(ctx, rep):
     rep.borrowed(C04.r9, ctx, "C07.R19", "a RANGE frame with offsets needs an ORDER BY to be valid SQL")
 
 
+def r20(ctx, rep):
+    rep.rule("C07.R20", "an OFFSET without LIMIT is only emitted for dialects that parse it", floor=2)
+    import alpha
+    import boolfn
+    syn = ctx.syn
+    defaults, mat = dialect_matrix(syn)
+    # role anchor: the `LimitClause::LimitOffset { limit, offset, .. }` literal(s) of sql/gen_query.rs
+    sites = []
+    for f in syn.fns_in_file("sql/gen_query.rs"):
+        if "body" not in f:
+            continue
+        for n in walk(f["body"]):
+            if n.get("k") == "struct" and last_seg(n["p"]) == "LimitOffset":
+                sites.append((f, n))
+    if not sites:
+        raise AnchorMissing("sql/gen_query.rs: no `LimitClause::LimitOffset { .. }` literal")
+    needy = ["SQLiteDialect", "MySqlDialect"]
+    for f, n in sites:
+        fields = dict(n["f"])
+        lim = fields.get("limit")
+        A = alpha.Inliner(f)
+        # follow the (possibly shadowed) local that holds the limit back through its definitions; collect the decisions that can turn None into Some
+        decisions = []
+        cur, depth = lim, 0
+        while cur is not None and depth < 6:
+            depth += 1
+            if cur.get("k") == "path" and "::" not in cur["p"]:
+                cur = A._init_of(cur, cur["p"])
+                continue
+            if cur.get("k") == "if" and cur.get("e") is not None:
+                decisions.append(cur)
+                # continue through the branch that passes the old value on
+                nxt = None
+                for br in (cur["e"], cur["t"]):
+                    leafs = br["s"] if br.get("k") == "block" else [br]
+                    if leafs and leafs[-1].get("k") == "path":
+                        nxt = leafs[-1]
+                cur = nxt
+                continue
+            break
+        for h in needy:
+            ok = False
+            for d in decisions:
+                def atom(t, h=h):
+                    t = t.replace(" ", "")
+                    if t.endswith("limit.is_none()"):
+                        return True
+                    if t.endswith("limit.is_some()"):
+                        return False
+                    if t.endswith("offset.is_some()"):
+                        return True
+                    if t.endswith("offset.is_none()"):
+                        return False
+                    m = re.match(r"^ctx\.dialect\.(\w+)\(\)$", t)
+                    if m and m.group(1) in defaults:
+                        v = effective(defaults, mat, h, m.group(1))[0]
+                        return {"true": True, "false": False}.get(v)
+                    return None
+                try:
+                    taken = d["t"] if boolfn.ev(d["c"], atom, A) else d["e"]
+                except boolfn.Unknown:
+                    continue
+                txt = show(taken, maxdepth=10).strip("{ }")
+                if txt.startswith("Some("):
+                    ok = True
+            rep.check(ok, f"offset-needs-limit:{h}", f"{f['path']}: for {h} an open-ended `take n..` (limit None, offset Some) reaches `LimitOffset {{ limit: None, offset }}` and prints a bare `OFFSET n`, "
+                      "which this engine rejects (OFFSET is part of its LIMIT clause): no decision on the way to the `limit` field supplies a LIMIT in that case",
+                      file=f["file"], line=n["l"], fn=f["path"])
+
+
+def r21(ctx, rep):
+    rep.rule("C07.R21", "what a transform's clause mentions is requested from the preceding sub-query: a take's ORDER BY keys and its range", floor=2)
+    syn = ctx.syn
+    f = syn.fn("anchor::get_requirements", crate="prqlc")
+    found = None
+    for m in matches_of(f["body"]):
+        for arm in m["arms"]:
+            for alt in pat_alts(arm["pat"]):
+                for n in walk(alt):
+                    if n.get("k") == "p_struct" and last_seg(n["p"]) == "Take":
+                        bound = {}
+                        for fld in n["f"]:
+                            # (field name, pattern): `sort`, `sort: keys`, ..
+                            names = [x["n"] for x in walk(fld[1]) if x.get("k") == "p_ident"] if len(fld) > 1 and isinstance(fld[1], dict) else [fld[0]]
+                            bound[fld[0]] = names or [fld[0]]
+                        used = {k: any(y.get("k") == "path" and y["p"] in v for y in walk(arm["body"])) for k, v in bound.items()}
+                        found = (arm, used)
+    if found is None:
+        raise AnchorMissing("get_requirements: no arm for `Take { .. }`")
+    arm, used = found
+    # postprocess pushes `Sort(take.sort)` in front of every Take (C03.R2): the ORDER BY is printed in the SELECT of the take
+    for fld, why in (("range", "the LIMIT / OFFSET expressions"), ("sort", "the ORDER BY that is emitted in front of the LIMIT (`sort c | take 7` is one Take { sort: [c] })")):
+        rep.check(used.get(fld, False), f"take-requires:{fld}", f"get_requirements does not ask the preceding pipeline for the columns of `Take.{fld}` ({why}): after a split the earlier "
+                  "sub-query is built without the column and the SELECT of the take names a column that does not exist there", file=f["file"], line=arm["l"], fn=f["path"])
+
+
 def run(ctx, rep):
-    for r in (r1, r2, r3, r4, r5, r6, r7, r8, r9, r10, r11, r12, r13, r14, r15, r16, r17, r19):
+    for r in (r1, r2, r3, r4, r5, r6, r7, r8, r9, r10, r11, r12, r13, r14, r15, r16, r17, r19, r20, r21):
         rep.guard(r, ctx)
